@@ -284,6 +284,11 @@ structure Cfg where
   (repair of finding F-C18-10); as it is, `add_wildcard_import` skips a map that is already present, so
   the repeated import does not get its precedence back -/
   wildRefresh : Bool := false
+  /-- the id roots of import statements count as non-local accesses of a function (repair of finding
+  F-C18-9), so a function that imports an id which is a local of the enclosing frame captures it; as
+  it is, import roots are not accesses (and a function with no other non-local access has no
+  non-locals at all — outside the generated envelope: every generated function prints) -/
+  importCaptures : Bool := false
 
 /-- execution frame: where imports resolve, locals, wildcard imports, and whether top-level
 assignments are exported (`export_top_level_ids`, host script top level only) -/
@@ -666,6 +671,13 @@ def execActs (cfg : Cfg) (fs : FS) (rec : Runner) :
 
 /-! ### functions: `@main` and `@test` -/
 
+/-- the id roots of an import statement -/
+def Act.importIds : Act → List Name
+  | .importMods items => (items.filter (fun i => !i.str)).map (fun i => i.name)
+  | .fromImport m _ => if m.str then [] else [m.name]
+  | .fromAll m => if m.str then [] else [m.name]
+  | _ => []
+
 def Act.reads : Act → List Name
   | .show _ k => [k]
   | .tryShow _ k => [k]
@@ -687,15 +699,17 @@ def Act.binds : Act → List Name
   | _ => []
 
 /-- ids the body reads before it binds them itself (the parser's `accessed_non_locals`) -/
-def captureSet : List Act → List Name → List Name
+def captureSet (ic : Bool) : List Act → List Name → List Name
   | [], _ => []
-  | a :: rest, bound => a.reads.filter (fun k => !bound.contains k) ++ captureSet rest (a.binds ++ bound)
+  | a :: rest, bound =>
+    (a.reads ++ (if ic then a.importIds else [])).filter (fun k => !bound.contains k)
+      ++ captureSet ic rest (a.binds ++ bound)
 
 /-- `run_make_function`: accessed ids that are locals of the enclosing frame are captured by value;
 the frame's non-locals (wildcard imports so far) are shared as a snapshot -/
-def mkClosure (fr : Frame) (mk : Nat) (body : List Act) : Closure :=
+def mkClosure (ic : Bool) (fr : Frame) (mk : Nat) (body : List Act) : Closure :=
   { marker := mk, body := body, dir := fr.dir,
-    locals := fr.locals.filter (fun kv => (captureSet body []).contains kv.1),
+    locals := fr.locals.filter (fun kv => (captureSet ic body []).contains kv.1),
     wild := fr.wild }
 
 def runFn (cfg : Cfg) (fs : FS) (rec : Runner) (c : Closure) (st : St) : Option (Option Err × St) :=
@@ -729,7 +743,7 @@ def execTAct (cfg : Cfg) (fs : FS) (rec : Runner) (a : TAct) (fr : Frame) (st : 
   | .exportFn k mk body =>
     let v := V.fn fr.self k
     some (none, bind k v fr,
-      setData k v { st with exports := { st.exports with fns := insert k (mkClosure fr mk body) st.exports.fns } })
+      setData k v { st with exports := { st.exports with fns := insert k (mkClosure cfg.importCaptures fr mk body) st.exports.fns } })
   | .callMember m k =>
     match readId cfg fr st m with
     | none => some (some .idNotFound, fr, st)
@@ -748,9 +762,9 @@ def execTAct (cfg : Cfg) (fs : FS) (rec : Runner) (a : TAct) (fr : Frame) (st : 
       | none => none
       | some (r, st1) => some (r, fr, st1)
   | .defMain mk body =>
-    some (none, fr, { st with exports := { st.exports with main := some (mkClosure fr mk body) } })
+    some (none, fr, { st with exports := { st.exports with main := some (mkClosure cfg.importCaptures fr mk body) } })
   | .defTest n mk body =>
-    some (none, fr, { st with exports := { st.exports with tests := insert n (mkClosure fr mk body) st.exports.tests } })
+    some (none, fr, { st with exports := { st.exports with tests := insert n (mkClosure cfg.importCaptures fr mk body) st.exports.tests } })
 
 def execTActs (cfg : Cfg) (fs : FS) (rec : Runner) :
     List TAct → Frame → St → Option (Option Err × Frame × St)
